@@ -605,6 +605,79 @@ def _slot_absent_edges(ctx, L, g):
     return out
 
 
+def _carried_previous(u, f, g, F, n, ea, eb):
+    """The comparison cmp(*prev, cur) inside a loop over a whole container, where cur is the loop's current element and prev
+    a pointer local that is null before the loop and set to &cur as the last thing every iteration does: every consecutive
+    pair is compared.  Returns dict(container, loop) or None."""
+    keys = F.keys
+    loop = None
+    for an in ancestors(n.ast):
+        if an.get('kind') in ('CXXForRangeStmt',):
+            loop = an
+            break
+    if loop is None:
+        return None
+    # the range and the loop variable
+    lv = [x for x in kids(loop) if x.get('kind') == 'DeclStmt']
+    var = None
+    rng = None
+    for ds in lv:
+        for d in kids(ds):
+            if d.get('kind') == 'VarDecl' and (d.get('name') or '').startswith('__range') and kids(d):
+                rng = keys.key(kids(d)[-1])
+            elif d.get('kind') == 'VarDecl' and not (d.get('name') or '').startswith('__') and '&' in (qtype(d) or ''):
+                var = d
+    if var is None or rng is None:
+        return None
+    pb = peel(eb)
+    if not (pb.get('kind') == 'DeclRefExpr' and (pb.get('referencedDecl') or {}).get('id') == var['id']):
+        return None
+    pa = peel(ea)
+    if not (pa.get('kind') == 'UnaryOperator' and pa.get('opcode') == '*' and peel(kids(pa)[0]).get('kind') == 'DeclRefExpr'):
+        return None
+    pid = (peel(kids(pa)[0]).get('referencedDecl') or {}).get('id')
+    pd = u.by_id.get(pid)
+    if pd is None or pd.get('kind') != 'VarDecl' or not kids(pd) or any(an is loop for an in ancestors(pd)):
+        return None
+    if keys.key(kids(pd)[-1]) != 'null':
+        return None
+    pk = '%s#%s' % (pd.get('name'), pid)
+    # only  prev != nullptr  conditions the comparison within the iteration
+    fs = F.facts_at(n)
+    if not any(op == '!=' and set((a_, b_)) == set((pk, 'null')) for (op, a_, b_) in fs):
+        return None
+    ws = [y for y in walk(f) if y.get('kind') == 'BinaryOperator' and y.get('opcode') == '=' and
+          (peel(kids(y)[0]).get('referencedDecl') or {}).get('id') == pid]
+    if len(ws) != 1 or keys.key(kids(ws[0])[1]) != '&(%s#%s)' % (var.get('name'), var['id']):
+        return None
+    body = kids(loop)[-1]
+    if body.get('kind') != 'CompoundStmt' or not kids(body):
+        return None
+    last = kids(body)[-1]
+    if not any(y is ws[0] for y in walk(last)) or last.get('kind') not in ('BinaryOperator',):
+        return None             # the update is the last statement of the body ...
+    if any(y.get('kind') in ('ContinueStmt', 'GotoStmt') for y in walk(body)):
+        return None             # ... and nothing skips it
+    # the comparison is reached in every iteration except through the null test: it sits at the top level of the body
+    top = [s_ for s_ in kids(body) if any(y is n.ast for y in walk(s_))]
+    if not top or top[0].get('kind') != 'IfStmt':
+        return None
+    cond_ = kids(top[0])[0]
+    conj = []
+    stack = [cond_]
+    while stack:
+        c_ = peel(stack.pop())
+        if c_.get('kind') == 'BinaryOperator' and c_.get('opcode') == '&&':
+            stack.extend(kids(c_))
+        else:
+            conj.append(c_)
+    others = [c_ for c_ in conj if not any(y is n.ast or y is peel(n.ast) for y in walk(c_)) and
+              not (keys.key(c_) in ('(%s != null)' % pk, '(null != %s)' % pk, pk))]
+    if others:
+        return None
+    return dict(container=rng.lstrip('*').strip('()') if rng.startswith('*') else rng, loop=loop)
+
+
 def _check_order(ctx):
     """C14-order: in the loader of zone data every consecutive pair of table entries is
     compared with the strict order the bracket relies on, with a failing exit."""
@@ -650,6 +723,13 @@ def _check_order(ctx):
         covers = False
         if loop is not None and consecutive and ivar:
             covers = _loop_covers(ctx, g, F, loop, n, ivar, a[1])
+        carried = None
+        if a is None or b is None or not consecutive:
+            carried = _carried_previous(u, f, g, F, n, args[1], args[2])
+        if carried:
+            found[cmpf] = dict(node=n.ast, consecutive=True, fail=fail, covers=True, container=carried['container'], loop=carried['loop'],
+                               unnormalised=False)
+            continue
         found[cmpf] = dict(node=n.ast, consecutive=consecutive, fail=fail, covers=covers, container=a[1] if a else None, loop=loop,
                            unnormalised=(a is None or b is None))
     for fld, what in (('unix_time', 'instants'), ('civil_sec', 'civil seconds')):
